@@ -1,56 +1,41 @@
-"""E10 - ``PyExec``: the model interpreter of ``sa/rules.py`` (``ModelExec``) grown into an interpreter of
-ordinary Python over MODEL WORLDS, so that a rule can state what a function COMPUTES and have it decided by
-interpreting the function - whatever its spelling - on model objects the rule constructs.
+"""``PyExec``: the abstract interpreter of ``sa/rules.py`` (``ModelExec``) extended to the Python subset the
+package's own helper code is written in, so that a rule about *model objects* (objects that are a set of kinds
+plus the attributes the rule knows) follows that code through every spelling.
 
-A rule builds a small world (model objects with the observable behaviour of the external library objects
-the function talks to: SymPy expressions, a file system, a pickle module ...), interprets the function
-under analysis on it and compares the result / the recorded effects with the specification evaluated on
-the same world.  Nothing of the analysed package is imported or run by CPython: the interpreter walks the
-AST; every external callable is a model written in this framework; whatever has no model raises
-``ModelError`` (the rule fails closed, exit 2).  Because the function is *interpreted*, behaviour-preserving
-refactorings are invisible by construction: helper extraction and inlining (module function, method,
-static method, nested closure, generator function), accumulators passed down, comprehension <-> loop <->
-``map``/``filter``/``functools.reduce``/``itertools.chain``/``itertools.product``, ``functools.partial``,
-``operator.itemgetter``/``attrgetter``, keyword <-> positional arguments, ``*args`` / ``**kwargs``, parameter
-re-ordering of helpers, walrus, ``try/except KeyError`` instead of ``in``, ``.get(k, sentinel)``, early
-returns / guard clauses / De Morgan, star-unpacking, ``while`` <-> recursion, string building by
-join / format / concatenation, shared private properties, ``contextlib.suppress`` instead of ``try``.
+Scope - what this engine is used for, and what it is NOT used for.  It is the evaluation engine under two rule
+families only: ``rules.object_exec`` (C14 / C15: the ``@unevaluated`` decorator's generated hooks, interpreted over
+the finite abstract domain of field kinds x rule kinds described at ``ModelExec``) and ``ncterms.MatrixModel``
+(C09 / C10: the K-matrix formulas evaluated into non-commutative matrix *terms*).  In both the values are abstract
+(kinds, marks, symbolic terms), the result is compared with a specification over the same abstract values, and
+anything without a model raises ``ModelError`` (the rule fails closed, exit 2).  Nothing of the analysed package is
+imported or run by CPython: the interpreter walks the AST.  An earlier revision of this file also carried emulated
+*worlds* (a file system with a pickle module, a hash-consed SymPy) on which rules of C06 / C16 / C17 / C18 ran the
+package's functions on hand-picked scenarios and compared outcomes.  That is testing on a model, not static
+analysis - a verdict over the scenarios somebody thought of, not over the code's paths - and was removed together
+with those rule versions (DESIGN.md 9.12); the rules of C06 / C16 / C17 / C18 are dataflow / path / typestate
+rules again.
 
-What ``PyExec`` adds to ``ModelExec``:
+Python constructs understood beyond ``ModelExec``:
 
 * objects of repository classes (``Instance``): attribute lookup falls back to the class (MRO over the
   repository classes, name-mangled privates): methods are bound, ``@property`` is evaluated,
-  ``@cached_property`` is evaluated once per object (the SAME value is handed out afterwards - sharing
-  is observable), ``@staticmethod`` / ``@classmethod``; zero-argument ``super()``;
-  ``functools.cache`` / ``lru_cache`` functions are memoised per argument identity (as CPython shares
-  the cached object);
-* plain helper classes of the package are instantiated: ``Helper(a, b)`` makes an ``Instance`` and runs ``__init__`` (``new_instance``);
-  for ``typing.NamedTuple`` / ``@dataclass`` / ``@attrs.define|frozen`` classes the generated constructor is
-  modelled from the annotated fields (defaults, ``field(factory=..., default=...)``), a NamedTuple also unpacks /
-  indexes / iterates like the tuple it is.  Classes with external bases (SymPy expressions ...) need a model of
-  the rule (``externals[qualname]``);
-* ``dynamic`` attributes of model objects (computed on every access: ``free_symbols`` is a fresh set);
-* generator functions: a call gives a generator object of the model that is advanced lazily (``for`` / ``list`` /
-  ``*`` drain it, ``next`` takes one element; the body is suspended at ``yield`` inside ``if`` / ``for`` / ``while`` /
-  ``try`` / ``with``); ``@contextlib.contextmanager`` functions are context managers (``__exit__`` resumes the body or
-  throws the exception in at the ``yield``);
-* ``with`` (``__enter__`` / ``__exit__`` of model objects, exceptions are passed to ``__exit__`` and
-  suppressed if it answers true), ``try`` with the builtin exception hierarchy, ``raise`` / bare re-raise /
-  ``raise e``, ``del``, in-place ``|=`` / ``-=`` / ``&=`` / ``+=`` on sets, dicts and lists (aliases see it);
-* the methods of ``str`` / ``tuple`` / ``list`` / ``dict`` / ``set`` natively on model values, ``sorted`` /
-  ``min`` / ``max`` / ``list.sort`` with interpreted key functions, ``next``, ``type``, ``abs`` ...,
-  reflected arithmetic hooks, native ordering of plain values;
-* models of pure standard-library helpers: ``itertools`` (product, chain, chain.from_iterable, zip_longest,
-  starmap, islice, repeat, combinations, permutations, accumulate), ``functools`` (reduce, partial),
-  ``operator`` (itemgetter, attrgetter, methodcaller, the arithmetic / comparison functions), ``typing.cast``,
-  ``copy.copy``, ``contextlib.suppress``, ``math``/``re`` functions on plain data, logger calls (no-ops);
-* ``nonlocal`` / ``global`` declarations are refused (``ModelError``): closures are entered with a copy of the
-  defining environment, so a re-binding would be lost silently.
+  ``@cached_property`` once per object, ``@staticmethod`` / ``@classmethod``; zero-argument ``super()``;
+  ``functools.cache`` / ``lru_cache`` functions are memoised per argument identity;
+* plain helper classes of the package are instantiated (``new_instance``); for ``typing.NamedTuple`` /
+  ``@dataclass`` / ``@attrs.define|frozen`` classes the generated constructor is modelled from the annotated fields,
+  a NamedTuple also unpacks / indexes / iterates like the tuple it is.  Classes with external bases (SymPy
+  expressions ...) need a model of the rule (``externals[qualname]``);
+* ``dynamic`` attributes of model objects (computed on every access);
+* generator functions (advanced lazily), ``@contextlib.contextmanager``;
+* ``with``, ``try`` with the builtin exception hierarchy, ``raise``, ``del``, in-place operators on sets, dicts, lists;
+* the methods of ``str`` / ``tuple`` / ``list`` / ``dict`` / ``set`` natively on model values, ``sorted`` / ``min`` /
+  ``max`` with interpreted key functions, ``next``, ``type``, ``abs`` ...;
+* models of pure standard-library helpers: ``itertools``, ``functools`` (reduce, partial), ``operator``,
+  ``typing.cast``, ``copy.copy``, ``contextlib.suppress``, ``math`` / ``re`` functions on plain data, logger calls;
+* ``nonlocal`` / ``global`` declarations are refused (``ModelError``).
 
-``SymWorld`` (below) is the model of the SymPy objects the package computes with: hash-consed expression
-nodes (structural equality is identity), symbols with assumptions, ``xreplace`` (structural, simultaneous),
-``subs`` (sequential, consults the ``_eval_subs`` hook of objects that define one), ``free_symbols``
-(a fresh set per access), ``atoms``, ``doit``, ``Add`` / ``Mul``.
+``tools/pyexec_difftest.py`` (developer tool) compares this interpreter with CPython on small functions of its own -
+never on code of ``/repo``.
 """
 
 from __future__ import annotations
@@ -63,7 +48,7 @@ import re as _re
 from .loader import ClassInfo, FuncInfo, Tree, unparse
 from .rules import _SIGNAL_BREAK, _SIGNAL_CONTINUE, MObj, ModelError, ModelExec, ModelRaise, MRef, _FuncRef
 
-__all__ = ["ClassObj", "GenObj", "Instance", "PyExec", "SymWorld", "MObj", "MRef", "ModelError", "ModelRaise", "plain"]
+__all__ = ["ClassObj", "GenObj", "Instance", "PyExec", "MObj", "MRef", "ModelError", "ModelRaise", "plain"]
 
 EXC_PARENT = {
     "BaseException": None, "Exception": "BaseException", "KeyboardInterrupt": "BaseException", "SystemExit": "BaseException", "GeneratorExit": "BaseException",
@@ -1638,269 +1623,3 @@ class PyExec(ModelExec):
                 return -v if isinstance(node.op, ast.USub) else v
             raise ModelRaise("TypeError", "bad operand type for unary -")
         return super().ev(node, env, fn, depth)
-
-
-# ============================================================================ SymPy model world
-
-
-class SymWorld:
-    """Model objects with the observable behaviour of the SymPy objects the package computes with.
-
-    * ``symbol(name, **assumptions)`` - interned by (name, assumptions): two symbols of the same name and
-      assumptions are ONE object (SymPy: they compare equal and hash alike), a different assumption makes a
-      different symbol;
-    * ``node(head, *children)`` - an expression, hash-consed: structurally equal expressions are one
-      object, so ``==`` in interpreted code and in the rule's comparison is identity;
-    * ``value(name)`` - an atom without free symbols (a number);
-    * every expression has ``args``, ``free_symbols`` (fresh set per access), ``atoms(*types)``, ``has``,
-      ``xreplace(mapping)`` (structural and simultaneous: a node that is a key is replaced, otherwise its
-      children are mapped; the object itself is returned when nothing changed), ``subs(...)`` (sequential over
-      the pairs; an object with an ``_eval_subs`` hook is asked first), ``doit()``, ``func``.
-    ``hooks``: head -> callable(node, old, new) consulted by ``subs`` before descending (binding).
-    """
-
-    EXPR_KINDS = ("sympy.Expr", "sympy.Basic", "sympy.core.expr.Expr", "sympy.core.basic.Basic")
-    ASSUMPTION_NAMES = ("real", "positive", "negative", "nonnegative", "nonpositive", "nonzero", "zero", "integer", "rational", "complex", "imaginary", "finite", "infinite", "even", "odd")
-
-    def __init__(self, ex: PyExec | None = None) -> None:
-        self.ex = ex
-        self._symbols: dict = {}
-        self._nodes: dict = {}
-        self._values: dict = {}
-        self.log: list[tuple] = []  # (method, receiver, argument) of every subs / xreplace call made by interpreted code
-
-    # ---- construction
-    def symbol(self, name: str, **assumptions) -> MObj:
-        key = (name, tuple(sorted(assumptions.items())))
-        if key not in self._symbols:
-            s = Instance(f"Symbol {name}" + (f" {dict(assumptions)}" if assumptions else ""), None, kinds={"sympy.Symbol", "sympy.core.symbol.Symbol", *self.EXPR_KINDS})
-            s.attrs.update({"name": name, "is_Symbol": True, "is_symbol": True, "args": (), "__str__": lambda a, k, n=name: n, "is_Atom": True})
-            s.dynamic["func"] = lambda: getattr(self, "symbol_class", None) or self.externals()["sympy.Symbol"]
-            s.dynamic["__class__"] = s.dynamic["func"]
-            s.dynamic["assumptions0"] = lambda a=assumptions: dict(a)
-            s.sym_assumptions = dict(assumptions)  # type: ignore[attr-defined]
-            implied = dict(assumptions)
-            for a, consequences in (("positive", ("real", "nonnegative", "nonzero")), ("negative", ("real", "nonzero")), ("nonnegative", ("real",)), ("integer", ("real", "rational")),
-                                    ("rational", ("real",)), ("real", ("complex",))):
-                if implied.get(a) is True:
-                    for c in consequences:
-                        implied.setdefault(c, True)
-            for a in self.ASSUMPTION_NAMES:
-                s.attrs[f"is_{a}"] = implied.get(a)
-            self._install(s)
-            self._symbols[key] = s
-        return self._symbols[key]
-
-    def dummy(self, name: str, **assumptions) -> MObj:
-        """A ``sp.Dummy``: a symbol whose identity is more than name and assumptions (never equal to a symbol made by ``sp.Symbol``)."""
-        self._dummies = getattr(self, "_dummies", 0) + 1
-        d = self.symbol(name, dummy_index=self._dummies, **assumptions)
-        d.kinds.add("sympy.Dummy")
-        d.dynamic["assumptions0"] = lambda a=assumptions: dict(a)
-        d.sym_assumptions = dict(assumptions)  # type: ignore[attr-defined]
-        d.label = f"Dummy {name}"
-        return d
-
-    def value(self, name: str) -> MObj:
-        if name not in self._values:
-            v = Instance(f"value {name}", None, kinds={"sympy.Number", "sympy.Atom", *self.EXPR_KINDS})
-            v.attrs.update({"args": (), "is_Symbol": False, "is_symbol": False, "is_Atom": True, "__str__": lambda a, k, n=name: n, "is_number": True})
-            self._install(v)
-            self._values[name] = v
-        return self._values[name]
-
-    def node(self, head: str, *children, kinds=()) -> MObj:
-        key = (head, tuple(id(c) for c in children))
-        if key not in self._nodes:
-            n = Instance(f"{head}({', '.join(getattr(c, 'label', repr(c)) for c in children)})", None, kinds={f"sympy.{head}", *self.EXPR_KINDS, *kinds})
-            n.attrs.update({"args": tuple(children), "is_Symbol": False, "is_symbol": False, "is_Atom": False, "head": head,
-                            "__str__": lambda a, k, h=head, c=children: f"{h}({', '.join(self._text(x) for x in c)})"})
-            n._keep = children  # type: ignore[attr-defined]  # keeps the ids in the key alive
-            self._install(n)
-            self._nodes[key] = n
-        return self._nodes[key]
-
-    def _text(self, x) -> str:
-        if isinstance(x, MObj) and "__str__" in x.attrs:
-            return x.attrs["__str__"]([], {})
-        return repr(x)
-
-    def _install(self, e: Instance) -> None:
-        e.dynamic["free_symbols"] = lambda e=e: set(self.free(e))
-        e.attrs.update({
-            "xreplace": lambda a, k, e=e: self._logged("xreplace", e, a, k),
-            "subs": lambda a, k, e=e: self._logged("subs", e, a, k),
-            "_subs": lambda a, k, e=e: self.subs1(e, a[0], a[1]),
-            "atoms": lambda a, k, e=e: self.atoms(e, a),
-            "has": lambda a, k, e=e: any(x in self.subtree(e) for x in a),
-            "doit": lambda a, k, e=e: e,
-            "__eq__": lambda a, k, e=e: a[0] is e,
-            "__hash__": lambda a, k, e=e: id(e),
-        })
-        e.attrs.update(self.arithmetic(e))
-        e.attrs["__not_iterable__"] = True  # a SymPy expression is not iterable (TypeError)
-        if "head" in e.attrs:
-            e.attrs.setdefault("func", lambda a, k, h=e.attrs["head"]: self.node(h, *a))
-        for a in self.ASSUMPTION_NAMES:
-            e.attrs.setdefault(f"is_{a}", None)
-        e.attrs.setdefault("is_commutative", True)
-
-    def arithmetic(self, e) -> dict:
-        """``+ - * / ** -x`` build nodes (Add / Mul / Pow); ``0 + x`` and ``1 * x`` are ``x`` as in SymPy."""
-        def operand(x):
-            if isinstance(x, (int, float)) and not isinstance(x, bool):
-                return self.value(repr(x))
-            if isinstance(x, MObj):
-                return x
-            raise ModelError(f"arithmetic between an expression and {x!r} has no model")
-
-        def add(a, b):
-            terms = [t for t in (a, b) if not (isinstance(t, (int, float)) and t == 0) and t is not self._values.get("0")]
-            terms = [operand(t) for t in terms]
-            if not terms:
-                return self.value("0")
-            flat = []
-            for t in terms:
-                flat += list(t.attrs["args"]) if t.attrs.get("head") == "Add" else [t]
-            return flat[0] if len(flat) == 1 else self.node("Add", *flat)
-
-        def mul(a, b):
-            factors = [operand(t) for t in (a, b) if not (isinstance(t, (int, float)) and t == 1) and t is not self._values.get("1")]
-            if not factors:
-                return self.value("1")
-            return factors[0] if len(factors) == 1 else self.node("Mul", *factors)
-
-        neg = lambda x: self.node("Mul", self.value("-1"), operand(x))  # noqa: E731
-        inv = lambda x: self.node("Pow", operand(x), self.value("-1"))  # noqa: E731
-        return {
-            "__add__": lambda a, k: add(e, a[0]), "__radd__": lambda a, k: add(a[0], e),
-            "__mul__": lambda a, k: mul(e, a[0]), "__rmul__": lambda a, k: mul(a[0], e),
-            "__sub__": lambda a, k: add(e, neg(a[0])), "__rsub__": lambda a, k: add(a[0], neg(e)),
-            "__truediv__": lambda a, k: mul(e, inv(a[0])), "__rtruediv__": lambda a, k: mul(a[0], inv(e)),
-            "__pow__": lambda a, k: self.node("Pow", e, operand(a[0])), "__rpow__": lambda a, k: self.node("Pow", operand(a[0]), e),
-            "__neg__": lambda a, k: neg(e),
-        }
-
-    def externals(self) -> dict:
-        """Models of the SymPy callables / classes themselves (``sp.Symbol`` is a class object: callable and usable in isinstance)."""
-        symbol_class = MObj("class sympy.Symbol", {"__qual__": "sympy.Symbol", "__name__": "Symbol", "__call__": lambda a, k: self.symbol(a[0], **k)}, kinds={"class"})
-        self.symbol_class = symbol_class
-
-        def symbols(a, k):
-            names = [n for n in _re.split(r"[,\s]+", a[0].strip()) if n] if isinstance(a[0], str) else list(self.ex.iterate(a[0]) if self.ex is not None else a[0])
-            made = tuple(self.symbol(n, **{x: y for x, y in k.items() if x not in {"cls", "seq"}}) for n in names)
-            return made[0] if len(made) == 1 and isinstance(a[0], str) and "," not in a[0] and not k.get("seq") else made
-
-        out = {"sympy.symbols": symbols, "sympy.Add.fromiter": lambda a, k: self.node("Add", *(self.ex.iterate(a[0]) if self.ex is not None else a[0])),
-               "sympy.Mul.fromiter": lambda a, k: self.node("Mul", *(self.ex.iterate(a[0]) if self.ex is not None else a[0])),
-               "sympy.Symbol": symbol_class, "sympy.core.symbol.Symbol": symbol_class,
-               "sympy.Add": lambda a, k: self.node("Add", *a), "sympy.Mul": lambda a, k: self.node("Mul", *a), "sympy.Pow": lambda a, k: self.node("Pow", *a),
-               "sympy.Abs": lambda a, k: self.node("Abs", *a), "sympy.Tuple": lambda a, k: tuple(a),
-               "sympy.S.Zero": self.value("0"), "sympy.S.One": self.value("1"), "sympy.Integer": lambda a, k: self.value(repr(int(a[0]))) if plain(a) else a[0]}
-        return out
-
-    # ---- structure
-    def is_expr(self, x) -> bool:
-        return isinstance(x, MObj) and bool(set(self.EXPR_KINDS) & x.kinds)
-
-    def is_symbol(self, x) -> bool:
-        return isinstance(x, MObj) and "sympy.Symbol" in x.kinds
-
-    def children(self, e) -> tuple:
-        return tuple(e.attrs.get("args", ())) if isinstance(e, MObj) else tuple(e) if isinstance(e, (tuple, list)) else ()
-
-    def subtree(self, e) -> list:
-        out, todo = [], [e]
-        while todo:
-            x = todo.pop()
-            out.append(x)
-            todo.extend(self.children(x))
-        return out
-
-    def free(self, e) -> set:
-        """Free symbols: all symbols below ``e`` (objects that bind override ``free_symbols`` themselves)."""
-        if isinstance(e, MObj) and "__free__" in e.attrs:
-            return set(e.attrs["__free__"]())
-        if self.is_symbol(e):
-            return {e}
-        out: set = set()
-        for c in self.children(e):
-            out |= self.free(c)
-        return out
-
-    def atoms(self, e, types) -> set:
-        """``expr.atoms()``: the leaves; ``expr.atoms(T, ...)``: every sub-expression (the expression itself included) that is an instance of a T."""
-        nodes = [x for x in self.subtree(e) if isinstance(x, MObj)]
-        if not types:
-            return {x for x in nodes if not self.children(x)}
-        if self.ex is None:
-            raise ModelError("atoms(<types>) needs the interpreter")
-        return {x for x in nodes if any(self.ex.is_instance(x, t) for t in types)}
-
-    def rebuild(self, e, children: tuple):
-        if isinstance(e, (tuple, list)):
-            return tuple(children)
-        if tuple(children) == tuple(self.children(e)) and all(a is b for a, b in zip(children, self.children(e))):
-            return e
-        maker = e.attrs.get("__rebuild__")
-        if maker is not None:
-            return maker(children)
-        return self.node(e.attrs["head"], *children)
-
-    # ---- substitution
-    def xreplace(self, e, mapping: dict):
-        if isinstance(e, MObj) and e in mapping:
-            return mapping[e]
-        kids = self.children(e)
-        if not kids:
-            return e
-        return self.rebuild(e, tuple(self.xreplace(c, mapping) for c in kids))
-
-    def subs_pairs(self, args: list, kwargs: dict) -> list[tuple]:
-        if len(args) == 2:
-            return [(args[0], args[1])]
-        if len(args) != 1:
-            raise ModelRaise("ValueError", "subs accepts either 1 or 2 arguments")
-        src = args[0]
-        it = self.ex.iterate if self.ex is not None else list
-        if isinstance(src, dict):
-            return list(src.items())
-        pairs = [tuple(it(p)) for p in it(src)]
-        if any(len(p) != 2 for p in pairs):
-            raise ModelRaise("ValueError", "subs needs (old, new) pairs")
-        return pairs
-
-    def subs1(self, e, old, new):
-        if e is old:
-            return new
-        if isinstance(e, MObj) and "_eval_subs_hook" in e.attrs:
-            r = e.attrs["_eval_subs_hook"](old, new)
-            if r is not None:
-                return r
-        kids = self.children(e)
-        if not kids:
-            return e
-        return self.rebuild(e, tuple(self.subs1(c, old, new) for c in kids))
-
-    def subs(self, e, pairs: list[tuple]):
-        for old, new in pairs:
-            e = self.subs1(e, old, new)
-        return e
-
-    def _logged(self, method: str, e, a: list, k: dict):
-        where = self.ex.frames[-1].fn if self.ex is not None and self.ex.frames else None
-        if method == "xreplace":
-            if len(a) != 1 or not isinstance(a[0], dict):
-                if len(a) == 1 and isinstance(a[0], Instance) and self.ex is not None:  # a Mapping object of the package
-                    mapping = {key: self.ex.call_method(a[0], "__getitem__", [key]) for key in self.ex.iterate(a[0])}
-                else:
-                    raise ModelRaise("TypeError", "xreplace needs a mapping")
-            else:
-                mapping = dict(a[0])
-            self.log.append((method, e, mapping, where))
-            return self.xreplace(e, mapping)
-        pairs = self.subs_pairs(a, k)
-        self.log.append((method, e, pairs, where))
-        if k.get("simultaneous"):
-            return self.xreplace(e, dict(pairs))
-        return self.subs(e, pairs)
